@@ -82,3 +82,6 @@ Fixpoint lookup_handler (k : okind) (l : list (okind * handler)) : option handle
   | [] => None
   | (k', h) :: r => if okind_eqb k k' then Some h else lookup_handler k r
   end.
+
+(* what the cached value of ObjectNode.children is: a list (every reader sees all of it), or a one-shot iterator *)
+Inductive citer := CList | CGenerator.
